@@ -64,8 +64,20 @@ class Handshake:
         self.subprotocols: Optional[List[str]] = None
         self.upgrade: Optional[bytes] = None
         self.version: Optional[bytes] = None
+        self.malformed = False
         for name, value in headers:
             name = name.lower()
+            try:
+                value.decode("ascii")
+            except UnicodeDecodeError:
+                # The token lists are ASCII, nothing else can be valid
+                if name in {
+                    b"connection",
+                    b"sec-websocket-extensions",
+                    b"sec-websocket-protocol",
+                }:
+                    self.malformed = True
+                    continue
             # Several header lines are equivalent to a single comma
             # separated list (RFC 6455 section 11.3.4)
             if name == b"connection":
@@ -82,6 +94,8 @@ class Handshake:
                 self.upgrade = value
 
     def is_valid(self) -> bool:
+        if self.malformed:
+            return False
         if self.http_version < "1.1":
             return False
         elif self.http_version == "1.1":
